@@ -1,4 +1,5 @@
 import TunnoxModel.Proofs.C02
+import TunnoxModel.Proofs.C02Reattach
 /-!
 # C02 — a tunnel is a transparent, ordered, loss-free byte pipe between its ends
 
@@ -131,6 +132,175 @@ theorem C02_lifecycle (lim : Limiter) (sr tr : List ReadEv) (sw tw : List WriteE
   · split
     · rename_i h; simp [he2 (by simpa using h)]
     · rfl
+
+/-- **"…and is all of it if neither end closed early."**  When neither end's script contains a
+fault (no failing read, no cancellation, every write accepted in full and without blocking), then in
+every schedule the bridge never ends by itself: a finished bridge has one direction that reached its
+end-of-stream — and by `C02_bridge_main` that direction delivered everything.  (A bandwidth limit
+cannot be the reason either: `C02_limiter_only_cancel`.) -/
+theorem C02_no_spontaneous_close (lim : Limiter) (sr tr : List ReadEv) (sw tw : List WriteEv) (sched : List Who)
+    (hff : (faultFreeDir sr tw && faultFreeDir tr sw) = true) :
+    holdsNoSpontaneousClose sr tr sw tw
+      (Bridge.run ⟨lim, ⟨sr, tw, {}, none⟩, ⟨tr, sw, {}, none⟩, false, false⟩ sched).lifecycleEnd.obs = true := by
+  have hclean : ∀ (rs : List ReadEv) (ws : List WriteEv), faultFreeDir rs ws = true →
+      DirClean (maxRead rs) ⟨rs, ws, {}, none⟩ := by
+    intro rs ws h
+    simp only [faultFreeDir, Bool.and_eq_true, List.all_eq_true, Bool.not_eq_true', bne_iff_ne, ne_eq,
+      decide_eq_true_eq] at h
+    refine ⟨fun ev hev => ⟨(h.1 ev hev).1, (h.1 ev hev).2⟩, fun w hw => ⟨(h.2 w hw).1.1, (h.2 w hw).2⟩, ?_,
+      fun w hw => (h.2 w hw).1.2⟩
+    intro ev hev
+    unfold maxRead
+    have gen : ∀ (l : List ReadEv) (m : Nat), (∀ e ∈ l, e.data.length ≤ l.foldl (fun m ev => max m ev.data.length) m) ∧
+        m ≤ l.foldl (fun m ev => max m ev.data.length) m := by
+      intro l
+      induction l with
+      | nil => intro m; simp
+      | cons a t ih =>
+        intro m
+        simp only [List.foldl_cons, List.mem_cons, forall_eq_or_imp]
+        have h2 := (ih (max m a.data.length)).2
+        exact ⟨⟨Nat.le_trans (Nat.le_max_right _ _) h2, (ih _).1⟩, Nat.le_trans (Nat.le_max_left _ _) h2⟩
+    exact (gen rs 0).1 ev hev
+  simp only [Bool.and_eq_true] at hff
+  have hinit : JInv (maxRead sr) (maxRead tr) ⟨lim, ⟨sr, tw, {}, none⟩, ⟨tr, sw, {}, none⟩, false, false⟩ :=
+    ⟨hclean sr tw hff.1, hclean tr sw hff.2, by simp, by simp, by simp⟩
+  have h := JInv_run _ _ _ sched hinit
+  generalize Bridge.run ⟨lim, ⟨sr, tw, {}, none⟩, ⟨tr, sw, {}, none⟩, false, false⟩ sched = b at h
+  obtain ⟨_, _, _, hs1, hs2⟩ := h
+  simp only [holdsNoSpontaneousClose, hff.1, hff.2, Bool.and_self, if_true]
+  by_cases hfin : b.finished = true
+  · simp only [Bridge.lifecycleEnd, hfin, if_true, Bridge.obs]
+    simp only [Bridge.finished, Bool.and_eq_true] at hfin
+    obtain ⟨x, hx⟩ := Option.isSome_iff_exists.mp hfin.1
+    rcases hs1 x hx with e | e
+    · subst e; simp [hx, Bridge.finished, hfin.1, hfin.2]
+    · rcases e with e | e
+      · simp [e, Bridge.finished, hfin.1, hfin.2]
+      · simp [e, Bridge.finished, hfin.1, hfin.2]
+  · have hf : b.finished = false := by simpa using hfin
+    simp [Bridge.lifecycleEnd, hf, Bridge.obs]
+
+/-! ### Re-attached source connections -/
+
+/-- T2 tie: `Bridge.Start`'s source goroutine re-reads the installed forwarder under `sourceConnMu`
+before and after every copy, and `dynamicSourceWriter.Write` reads it for every write. -/
+theorem skel_Start_sourceLoop :
+    Skel.Bridge_Start =
+      ["sourceConnMu.RLock", "sourceConnMu.RUnlock", "b.CopyWithControl", "sourceConnMu.RLock", "sourceConnMu.RUnlock",
+       "b.CopyWithControl"] := by decide
+/-- `SetSourceConnection` publishes the new forwarder under the mutex the readers take (the model's
+"installed forwarder" is one atomic cell; the race-detector build of the harness checks the rest). -/
+theorem skel_SetSourceConnection :
+    Skel.Bridge_SetSourceConnection =
+      ["tunnelConnMu.Lock", "CreateDataForwarder", "sourceConnMu.Lock", "sourceConnMu.Unlock", "tunnelConnMu.Unlock"] := by
+  decide
+theorem skel_dynamicSourceWriter :
+    Skel.dynamicSourceWriter_Write = ["sourceConnMu.RLock", "sourceConnMu.RUnlock", "sourceForwarder.Write"] := by decide
+
+/-- **Source re-attachment, every script**: whatever the read scripts of the successive source
+connections, the points at which they are replaced, the target's write script and the limiter, the
+target receives one prefix of each connection's stream, in the order the connections were
+installed — nothing is duplicated, reordered or taken from a connection out of turn — and the byte
+counter equals the bytes delivered. -/
+theorem C02_reattach_delivery (l : Limiter) (gens : List SrcGen) (ws : List WriteEv) :
+    ∃ ps : List Bytes, Prefixes ps (gens.map (fun g => allData g.reads)) ∧
+      (sourceLoop l gens ws {}).1.delivered = ps.flatten ∧
+      (sourceLoop l gens ws {}).1.counter = (sourceLoop l gens ws {}).1.delivered.length := by
+  obtain ⟨ps, hp, hd, hc, _⟩ := sourceLoop_spec l gens ws {} rfl
+  refine ⟨ps, hp, by simpa using hd, ?_⟩
+  rw [hc, hd]; simp
+
+/-- **Nothing is lost across a re-attachment**: when no connection's script contains a fault, the
+target accepts what it is given and every connection is replaced only after it has been read to its
+end, the target receives every byte every source connection sent, and the loop ends with the last
+connection's end-of-stream. -/
+theorem C02_reattach_lossless (l : Limiter) (m : Nat) (gens : List SrcGen) (ws : List WriteEv)
+    (hr : ∀ g ∈ gens, CleanReads g.reads ∧ g.attachAt ≤ g.reads.length ∧ ∀ ev ∈ g.reads, ev.data.length ≤ m)
+    (hw : CleanWrites ws m) (hne : gens ≠ []) :
+    (sourceLoop l gens ws {}).1.delivered = (gens.map (fun g => allData g.reads)).flatten ∧
+    (sourceLoop l gens ws {}).2 = .eof := by
+  have h := sourceLoop_clean l m gens ws {} hr hw hne
+  simpa using h
+
+/-- **Re-attachment, main statement**: the model's observation of a run in which the source end
+re-attaches satisfies the property predicate the harness applies to the real bridge: the target's
+bytes decompose into prefixes of the connections' streams (all of them when nothing failed), what
+the source connections received is, in connection order, a prefix of what the target sent, each
+replaced connection got exactly the bytes written while it was installed, both current ends are
+closed, the tunnel is forgotten and the counters say what was delivered. -/
+theorem C02_reattach_main (l : Limiter) (gens : List SrcGen) (tgt : List ReadEv) :
+    holdsReattach gens tgt (pausePoints l gens [] {}) (reattachObs l gens tgt) = true := by
+  obtain ⟨ps, hp, hd, hc⟩ := C02_reattach_delivery l gens []
+  have hlen := expectedPerSource_length (pausePoints l gens [] {}) tgt gens.length
+  simp only [holdsReattach, reattachObs, Bool.and_true, beq_self_eq_true, Bool.and_eq_true, hc]
+  refine ⟨⟨⟨?_, ?_⟩, ?_⟩, ?_⟩
+  · rw [hd]; exact matchGens_of_prefixes _ _ hp
+  · split
+    · rename_i hclean
+      cases hg : gens with
+      | nil => simp [sourceLoop]
+      | cons g gs =>
+        have hne : gens ≠ [] := by rw [hg]; simp
+        let m := ((gens.flatMap (·.reads)).map (·.data.length)).sum
+        have hle : ∀ (xs : List Nat) (x : Nat), x ∈ xs → x ≤ xs.sum := by
+          intro xs; induction xs with
+          | nil => intro x hx; cases hx
+          | cons a t ih =>
+            intro x hx
+            rcases List.mem_cons.mp hx with rfl | h
+            · simp
+            · have := ih x h; simp; omega
+        have hr : ∀ g ∈ gens, CleanReads g.reads ∧ g.attachAt ≤ g.reads.length ∧ ∀ ev ∈ g.reads, ev.data.length ≤ m := by
+          intro g hgm
+          have hc := (List.all_eq_true.mp hclean) g hgm
+          simp only [Bool.and_eq_true, decide_eq_true_eq] at hc
+          refine ⟨?_, hc.2, ?_⟩
+          · intro ev hev
+            have := (List.all_eq_true.mp hc.1) ev hev
+            simp only [Bool.and_eq_true, Bool.not_eq_true', bne_iff_ne, ne_eq] at this
+            exact ⟨this.1, this.2⟩
+          · intro ev hev
+            apply hle
+            exact List.mem_map.mpr ⟨ev, List.mem_flatMap.mpr ⟨g, hgm, hev⟩, rfl⟩
+        have := (C02_reattach_lossless l m gens [] hr (by intro w hw; cases hw) hne).1
+        rw [← hg, this]; simp
+    · rfl
+  · exact List.isPrefixOf_iff_prefix.mpr (expectedPerSource_prefix _ _ _)
+  · split
+    · exact perSourceOk_refl _ _ _
+    · simp [hlen]
+
+/-- The schedule-independent part of the predicate (applied to free-running runs) follows. -/
+theorem C02_reattach_free (l : Limiter) (gens : List SrcGen) (tgt : List ReadEv) :
+    holdsReattachFree gens tgt (reattachObs l gens tgt) = true := by
+  have h := C02_reattach_main l gens tgt
+  have hlen := expectedPerSource_length (pausePoints l gens [] {}) tgt gens.length
+  simp only [holdsReattach, Bool.and_eq_true] at h
+  simp only [holdsReattachFree, Bool.and_eq_true]
+  obtain ⟨⟨⟨⟨⟨⟨⟨⟨⟨h1, h2⟩, h3⟩, _⟩, h5⟩, h6⟩, h7⟩, h8⟩, h9⟩, h10⟩ := h
+  refine ⟨⟨⟨⟨⟨⟨⟨⟨⟨h1, h2⟩, h3⟩, ?_⟩, h5⟩, h6⟩, h7⟩, h8⟩, h9⟩, h10⟩
+  simp [reattachObs, hlen]
+
+/-- A re-attached run: the second connection's bytes follow the first's; a connection replaced
+before its script ended keeps the loop going (tests of the model, not the theorem). -/
+example :
+    (sourceLoop none [⟨[⟨[1, 2], none, false, 0⟩], 1⟩, ⟨[⟨[3], none, false, 0⟩, ⟨[4], some .fatal, false, 0⟩], 0⟩] [] {}).1.delivered
+      = [1, 2, 3, 4] := by decide
+example : gensClean [⟨[⟨[1, 2], none, false, 0⟩], 1⟩, ⟨[⟨[3], none, false, 0⟩], 1⟩] = true := by decide
+
+/-! ### Closure does not wait for the statistics backend -/
+
+/-- **The other end observes closure however slow the statistics backend is**: running the steps of
+`Bridge.Close` — the list regenerated from the source — closes both endpoints whether or not the
+final traffic report ever returns; and when it does return, it has run (once). -/
+theorem C02_close_endpoints_first (stall : Bool) :
+    (closeRun stall Skel.Bridge_Close {}).srcClosed = true ∧ (closeRun stall Skel.Bridge_Close {}).tgtClosed = true ∧
+    (closeRun stall Skel.Bridge_Close {}).reported = !stall := by
+  cases stall <;> decide
+
+/-- The order matters: with the report first, a stalled backend leaves both ends open (a test of the model). -/
+example : (closeRun true ["ManagerBase.Close", "sourceConn.Close", "targetConn.Close"] {}).srcClosed = false := by decide
 
 /-! ### Non-vacuity -/
 
